@@ -114,6 +114,87 @@ def _increase_defaults(ex):
         raise AnchorError("defaults of exhaustion_by_budget_increase no longer have the expected shape: %r" % (e,))
 
 
+def _class(tree, name):
+    for node in tree.body:
+        if isinstance(node, ast.ClassDef) and node.name == name:
+            return node
+    raise AnchorError("class %s not found" % name)
+
+
+def _relax_inf_factor(rx):
+    """Relaxation.__init__: self.INF = instance.budget_limit * <int>  (or <int> * instance.budget_limit)"""
+    init = _func(_class(rx, "Relaxation"), "__init__")
+    found = []
+    for n in ast.walk(init):
+        if isinstance(n, ast.Assign) and len(n.targets) == 1 and ast.unparse(n.targets[0]) == "self.INF":
+            v = n.value
+            if isinstance(v, ast.BinOp) and isinstance(v.op, ast.Mult):
+                for k, e in ((v.right, v.left), (v.left, v.right)):
+                    if isinstance(k, ast.Constant) and isinstance(k.value, int) and not isinstance(k.value, bool) \
+                            and ast.unparse(e) == "instance.budget_limit":
+                        found.append(k.value)
+    if len(found) != 1:
+        raise AnchorError("Relaxation.INF: expected self.INF = instance.budget_limit * <int>, found %r" % (found,))
+    return found[0]
+
+
+def _relax_budget_fraction(rx):
+    """MinAddOffset.BUDGET_FRACTION = <decimal literal>  -> exact (numerator, denominator) of the literal's text"""
+    from fractions import Fraction
+
+    cls = _class(rx, "MinAddOffset")
+    found = [n.value for n in cls.body if isinstance(n, ast.Assign) and len(n.targets) == 1
+             and isinstance(n.targets[0], ast.Name) and n.targets[0].id == "BUDGET_FRACTION"]
+    if len(found) != 1 or not isinstance(found[0], ast.Constant) or isinstance(found[0].value, bool) \
+            or not isinstance(found[0].value, (int, float)):
+        raise AnchorError("MinAddOffset.BUDGET_FRACTION is not a numeric literal")
+    fr = Fraction(repr(found[0].value))
+    if fr <= 0:
+        raise AnchorError("MinAddOffset.BUDGET_FRACTION is not positive")
+    return fr.numerator, fr.denominator
+
+
+def _relax_vec_cap(rx, inf_factor):
+    """MinAddVector.add_beta: the two rows that force beta[c] = 0 on selected projects,
+    beta[c] <= (1 - x_vars[c]) * E   and   (x_vars[c] - 1) * E <= beta[c];
+    E = self.instance.budget_limit -> 1,  E = self.INF -> the INF factor  (the cap on |beta[c]| of unselected
+    projects is that many budgets)"""
+    f = _func(_class(rx, "MinAddVector"), "add_beta")
+    caps = []
+    for n in ast.walk(f):
+        if isinstance(n, ast.Compare) and len(n.ops) == 1 and isinstance(n.ops[0], ast.LtE):
+            l, r = ast.unparse(n.left), ast.unparse(n.comparators[0])
+            for side, other in ((r, l), (l, r)):
+                for pat in ("(1 - x_vars[c]) * ", "(x_vars[c] - 1) * "):
+                    if side.startswith(pat) and other == "beta[c]":
+                        caps.append(side[len(pat):])
+    if len(caps) != 2 or len(set(caps)) != 1:
+        raise AnchorError("MinAddVector.add_beta: forcing rows not of the anchored shape: %r" % (caps,))
+    e = caps[0]
+    if e in ("self.instance.budget_limit", "self.C.budget_limit"):
+        return 1
+    if e == "self.INF":
+        if not inf_factor:
+            raise AnchorError("MinAddVector cap uses self.INF whose factor could not be extracted")
+        return inf_factor
+    raise AnchorError("MinAddVector.add_beta: unknown cap expression %r" % e)
+
+
+def _round_cmp_mode(ut):
+    """utils.round_cmp: `return round(a, precision) - round(b, precision)` -> 0 (difference of the rounded values),
+    `return round(a - b, precision)` -> 1 (the rounded difference); anything else fails closed"""
+    f = _func(ut, "round_cmp")
+    rets = [n for n in ast.walk(f) if isinstance(n, ast.Return)]
+    if len(rets) != 1 or rets[0].value is None:
+        raise AnchorError("round_cmp: expected exactly one return")
+    src = ast.unparse(rets[0].value).replace(" ", "")
+    if src == "round(a,precision)-round(b,precision)":
+        return 0
+    if src == "round(a-b,precision)":
+        return 1
+    raise AnchorError("round_cmp: unknown shape %r" % src)
+
+
 def extract(repo):
     """Every fact is extracted on its own; a fact whose source no longer has the anchored shape is replaced by
     a sentinel (0 / -1 / empty table) and listed in facts["failed"], so that exactly the theorems that depend on
@@ -131,6 +212,15 @@ def extract(repo):
     attempt("CHECK_ROUND_PRECISION", lambda: int(_const(pr, "CHECK_ROUND_PRECISION")), -1)
     attempt("ROUND_PRECISION", lambda: int(_const(pr, "ROUND_PRECISION")), -1)
     attempt("BIGM_FACTOR", lambda: _bigm_factor(pr), 0)
+    attempt("ROUND_CMP_MODE", lambda: _round_cmp_mode(_parse(repo, "pabutools/utils.py")), -1)
+    try:
+        rx = _parse(repo, "pabutools/analysis/priceability_relaxation.py")
+    except Exception as e:   # every relaxation anchor then fails on its own below
+        rx = ast.parse("")
+        facts["failed"].append("priceability_relaxation.py: %r" % (e,))
+    attempt("RELAX_INF_FACTOR", lambda: _relax_inf_factor(rx), 0)
+    attempt("RELAX_BUDGET_FRACTION", lambda: _relax_budget_fraction(rx), (0, 1))
+    attempt("RELAX_VEC_CAP_FACTOR", lambda: _relax_vec_cap(rx, facts.get("RELAX_INF_FACTOR", 0)), 0)
     attempt("INCREASE_DEFAULTS", lambda: _increase_defaults(_parse(repo, "pabutools/rules/exhaustion.py")), (0, 1, 0))
     wraps = {}
     for rel in ["pabutools/election/instance.py", "pabutools/rules/budgetallocation.py",
@@ -156,8 +246,16 @@ def render(facts) -> str:
         lines.append("(* EXTRACTION FAILED (sentinel value written): %s *)" % f.replace("*)", "* )"))
     lines.append("Definition CHECK_ROUND_PRECISION : Z := %d%%Z." % facts["CHECK_ROUND_PRECISION"])
     lines.append("Definition ROUND_PRECISION : Z := %d%%Z." % facts["ROUND_PRECISION"])
+    lines.append("(* utils.round_cmp: 0 = round(a, p) - round(b, p); 1 = round(a - b, p) *)")
+    lines.append("Definition ANCHOR_ROUND_CMP_MODE : Z := %d%%Z." % facts["ROUND_CMP_MODE"])
     lines.append("(* priceable(): INF = max(budget, costs) * BIGM_FACTOR *)")
     lines.append("Definition ANCHOR_BIGM_FACTOR : Z := %d%%Z." % facts["BIGM_FACTOR"])
+    lines.append("(* priceability_relaxation.py: Relaxation.INF = budget * RELAX_INF_FACTOR; MinAddOffset.BUDGET_FRACTION;")
+    lines.append("   MinAddVector forces beta[c] = 0 on selected projects with rows whose big-M is RELAX_VEC_CAP_FACTOR budgets *)")
+    lines.append("Definition ANCHOR_RELAX_INF_FACTOR : Z := %d%%Z." % facts["RELAX_INF_FACTOR"])
+    lines.append("Definition ANCHOR_RELAX_FRACTION_NUM : Z := %d%%Z." % facts["RELAX_BUDGET_FRACTION"][0])
+    lines.append("Definition ANCHOR_RELAX_FRACTION_DEN : positive := %d%%positive." % facts["RELAX_BUDGET_FRACTION"][1])
+    lines.append("Definition ANCHOR_RELAX_VEC_CAP_FACTOR : Z := %d%%Z." % facts["RELAX_VEC_CAP_FACTOR"])
     n, d, k = facts["INCREASE_DEFAULTS"]
     lines.append("(* exhaustion_by_budget_increase defaults: step = B * (num/den); bound = B * (num_ballots + k) *)")
     lines.append("Definition INCREASE_STEP_NUM : Z := %d%%Z." % n)
